@@ -56,6 +56,10 @@ ANGLES = {
 
 ANGLES["lifecycle"] = "less common public entry points and object life cycle. Look at the public ways of doing the same thing that ordinary examples do not use - TradingEnv.backtest() with a policy instead of a reset/step loop, reset(fold=..., episode_length=...), env.notify() called by the user, Broker / Exchange / Transmitter methods called directly between steps, TrackRecord.save / load, copy.copy / copy.deepcopy / pickle of environments, brokers, spaces, contracts and chains, subclasses that override a public method, objects constructed once and reused for several environments - and find a change that keeps the ordinary reset/step path identical but is wrong for one of these."
 
+ANGLES["recovery"] = "exception safety and recovery. Many public calls can legitimately raise - an invalid action or argument, a missing or NaN quote, a discontinued contract, an insolvent account, the end of the data, a refused reset, a time that goes backwards. Look for changes after which the call still raises exactly as before, but leaves an object (environment, broker, exchange, transmitter, space, state, track record, series) in a state from which LATER correct use gives wrong results: something updated before the check that raises, a flag or cache set and not restored, a queue or cursor advanced, a partial result kept. The caller catches the exception and carries on (next step, next rebalance, reset, next episode, next metric)."
+ANGLES["time"] = "time and calendar edge cases. Look at how timestamps are compared, bucketed, converted and subtracted: timezone-aware versus naive timestamps, daylight-saving transitions, leap days and leap years, month / quarter / year boundaries, weekends and holidays, timestamps that differ by microseconds, several events with exactly the same timestamp, dates before 1970 or after 2038 / 2100, pandas Timestamp versus datetime versus numpy datetime64, day counts (365 / 365.25 / 366 / 252) - and find a change that is invisible on an ordinary daily business-day series of one year but wrong at one of these."
+ANGLES["combos"] = "interactions between two optional features. Each optional argument or feature is usually tested alone. Look for changes that are invisible when any single option is used but wrong for a particular COMBINATION of two: latency with steps_delay, episode_length with folds or sampling_span, markov_reset with warmup, fit_transformers with folds, futures chains with a trading threshold or with whole-lot trading, fees with number-of-contract targets, a reference rate with margined contracts, DataFrame inputs with a risk-free series, window with stride, and so on."
+
 ALSO = {
     "C09": "Also already known on the unchanged code (not what you are asked for): TradingEnv.step lets EndOfEpisodeError escape from the reward computation when the account is insolvent at the end of a step; a decision whose own trading costs push NLV <= 0 raises from Broker.rebalance after trading.",
     "C10": "Also already known on the unchanged code (not what you are asked for): environments built without `state` share the default IState() instance; building a portfolio space over a FutureChain while AbstractContract.now is outside the chain's span raises IndexError.",
